@@ -33,7 +33,8 @@ class Undecided(Exception):
 # ----------------------------------------------------------------------------
 
 class Overlay:
-    def __init__(self, path):
+    def __init__(self, path, extra_text=None):
+        self.extra_text = extra_text
         self.path = path
         self.unit = os.path.basename(path).rsplit('.', 1)[0]
         self.property = None
@@ -48,11 +49,14 @@ class Overlay:
         self.ghosts = []      # dict(fn, where, nth, anchor, text)
         self.rlimit = None
         self.extra_args = []
+        self.externals = []   # fns kept with their real body but marked external_body (assumed contract)
         self._parse()
 
     def _parse(self):
         with open(self.path, encoding='utf-8') as f:
             lines = f.read().split('\n')
+        if self.extra_text:
+            lines += ['@@end'] + self.extra_text.split('\n')
         i = 0
         cur = None
         buf = []
@@ -84,7 +88,7 @@ class Overlay:
             elif kind == 'loop':
                 self.loops[(args[0], int(args[1]))] = text
             elif kind == 'ghost':
-                if args[1] in ('loop-start', 'loop-end', 'fn-start'):
+                if args[1] in ('loop-start', 'loop-end', 'fn-start', 'fn-end'):
                     pat, rep = '<%s>' % args[1], text
                 else:
                     pat, rep = self._split3(buf)
@@ -122,6 +126,8 @@ class Overlay:
                     self.source = parts[1]
                 elif k == 'rlimit':
                     self.rlimit = parts[1]
+                elif k == 'external':
+                    self.externals.append(parts[1])
                 elif k == 'verus-arg':
                     self.extra_args += parts[1:]
                 elif k == 'builtin':
@@ -184,7 +190,7 @@ def strip_n1(text):
     text = '\n'.join(out)
     text, k = re.subn(r'\bpub\s*\((?:crate|super|in [^)]*)\)\s+', '', text)
     n += k
-    text, k = re.subn(r'\bpub\s+(?=(?:const\s+|unsafe\s+)?(?:fn|struct|enum|const|static|type|mod|trait)\b)', '', text)
+    text, k = re.subn(r'\bpub\s+(?=(?:const\s+|unsafe\s+)?(?:fn|struct|static|type|mod|trait)\b)', '', text)
     n += k
     # pub on struct fields
     text, k = re.subn(r'(?m)^(\s*)pub\s+(?=[a-z_][A-Za-z0-9_]*\s*:)', r'\1', text)
@@ -480,7 +486,7 @@ def _decorate_fn(ov, key, text, log):
         if g['fn'] != key:
             continue
         check_ghost_only(g['text'], '%s ghost@%r' % (key, g['anchor'][:40]))
-        if g['where'] in ('loop-start', 'loop-end', 'fn-start'):
+        if g['where'] in ('loop-start', 'loop-end', 'fn-start', 'fn-end'):
             # structural anchor: `@@ghost f loop-end nth=k` — robust against edits of the statements themselves
             mask = code_mask(text)
             if g['where'] == 'fn-start':
@@ -494,6 +500,13 @@ def _decorate_fn(ov, key, text, log):
                         pd -= 1
                     j += 1
                 text = text[:j + 1] + '\n' + g['text'] + '\n' + text[j + 1:]
+                continue
+            if g['where'] == 'fn-end':
+                # before the closing brace of the body (functions returning unit)
+                j = len(text) - 1
+                while not (mask[j] and text[j] == '}'):
+                    j -= 1
+                text = text[:j] + '\n' + g['text'] + '\n' + text[j:]
                 continue
             loops = loop_headers(text)
             if g['nth'] >= len(loops):
@@ -522,6 +535,10 @@ def _decorate_fn(ov, key, text, log):
             raise Undecided('loop %d of %s not found (function has %d loops)' % (k, key, len(loops)))
         _, bo = loops[k]
         text = text[:bo] + '\n' + ov.loops[(key, k)] + '\n' + text[bo:]
+    if key in ov.externals:
+        m0 = re.search(r'(?m)^(\s*)((?:const\s+|unsafe\s+)?fn\s)', text)
+        text = text[:m0.start()] + m0.group(1) + '#[verifier::external_body]\n' + text[m0.start():]
+        log.append(dict(rule='N7', item=key, count=1, note='function kept with its real body but marked external_body: its contract is ASSUMED'))
     # function contract
     if key in ov.specs:
         sp = ov.specs[key]
@@ -565,13 +582,21 @@ def build(ov):
                 b.sources[src_rel] = hashlib.sha256(f.read()).hexdigest()[:16]
         S = srcs[path]
         try:
-            if spec.startswith('implall '):
-                hdr = 'impl ' + spec[len('implall '):].strip()
+            if spec.startswith('implall'):
+                hdr = 'impl' + spec[len('implall'):].rstrip()
                 blocks = S.find_impls(hdr)
                 if not blocks:
                     raise CutError('impl block not found: ' + hdr)
                 for bl in blocks:
                     items.append((hdr, S.src[bl['start']:bl['end']], '%s:%d' % (src_rel, bl['line']), 'impl'))
+            elif spec.startswith('constprefix '):
+                pref = spec.split()[1]
+                names = sorted(set(re.findall(r'\bconst\s+(' + re.escape(pref) + r'[A-Za-z0-9_]*)\s*:', S.src)), key=lambda n: S.src.index('const ' + n))
+                if not names:
+                    raise CutError('no const with prefix ' + pref)
+                for nm in names:
+                    d = S.cut_item('const', nm)
+                    items.append((nm, d['text'], '%s:%d' % (src_rel, d['line']), 'const'))
             elif spec.startswith('impl ') or spec.startswith('impl<'):
                 hdr, _, names = spec.partition(' :: ')
                 hdr = hdr.strip()
@@ -962,9 +987,9 @@ def reach_variant(built, ov):
     return out, [n for (_p, n, _i) in inserts]
 
 
-def verify_unit(vspec_path, workdir, check_reach=True, extra_postlude=None):
+def verify_unit(vspec_path, workdir, check_reach=True, extra_postlude=None, extra_overlay=None):
     """Build + verify one unit. Returns a result dict; raises Undecided."""
-    ov = Overlay(vspec_path)
+    ov = Overlay(vspec_path, extra_overlay)
     if extra_postlude:
         ov.postlude.append(extra_postlude)
     built = build(ov)
@@ -1013,10 +1038,15 @@ def main():
     ap.add_argument('-o', '--out', default=None)
     ap.add_argument('--workdir', default='/var/tmp/vx-work')
     ap.add_argument('--no-reach', action='store_true')
+    ap.add_argument('--gen', default=None, help='generator module providing extra overlay text (e.g. gen_c18)')
     a = ap.parse_args()
     try:
         if a.cmd == 'build':
-            ov = Overlay(a.vspec)
+            extra = None
+            if a.gen:
+                import importlib
+                extra, _info = importlib.import_module(a.gen).generate(repo_root())
+            ov = Overlay(a.vspec, extra)
             b = build(ov)
             if a.out:
                 with open(a.out, 'w') as f:
@@ -1024,7 +1054,11 @@ def main():
             else:
                 sys.stdout.write(b.text)
             return 0
-        r = verify_unit(a.vspec, a.workdir, check_reach=not a.no_reach)
+        extra = None
+        if a.gen:
+            import importlib
+            extra, _info = importlib.import_module(a.gen).generate(repo_root())
+        r = verify_unit(a.vspec, a.workdir, check_reach=not a.no_reach, extra_overlay=extra)
         brief = dict(r)
         brief.pop('census')
         for f in brief['failures']:
